@@ -316,10 +316,48 @@ def gen_streams_edge(rng, w, names=None):
     return groups
 
 
+def gen_streams_join(rng, w, n):
+    """n well-formed publishers that publish in lock step (the hypotheses of EdgeN.edgeN_lossless / C01_join_lossless): row k =
+    one group per source, all under the same id; ids strictly increasing from row to row (gaps allowed); per source 0-3 topics
+    (disjoint between sources, changing from row to row, hidden ones and frames without a visible topic included); every
+    source's messages reach the consumer in order, the interleaving BETWEEN sources is the environment's"""
+    K = rng.randint(2, 8)
+    mid = rng.choice([0, 0, 3, 40])
+    pools = [['main', 'a', 'x'], ['b', 'y/z', 'c'], ['d', 'e']]
+    rows, sts = [], [[] for _ in range(n)]
+    for _ in range(K):
+        row = []
+        for i in range(n):
+            r = rng.random()
+            if r < 0.1:
+                tl = []
+            elif r < 0.18:
+                tl = ['_metrics']
+            else:
+                tl = rng.sample(pools[i], rng.randint(1, len(pools[i])))
+                if rng.random() < 0.3:
+                    tl.insert(rng.randrange(len(tl) + 1), '_h')
+            parts = []
+            for t in tl:
+                pay = w.new_pay(src=i, sid=10 + i, mid=mid, topic=t, topics=tl)
+                parts.append((t, pay))
+                sts[i].append(dict(wtopic=('' if t.startswith('_') else '/') + t + '/', sid=10 + i, mid=mid, topics=tl, bal=0, pay=pay))
+            sts[i].append(dict(wtopic='//', sid=10 + i, mid=mid, topics=tl, bal=0, pay=0))
+            row.append(((mid, 10 + i), parts))
+        rows.append(row)
+        mid += rng.choice([1, 1, 1, 2, 7])
+    for i in range(n):
+        w.streams[i] = sts[i]
+    return rows
+
+
 def run_receiver_case(rng, budget=60, adversarial=False, edge=False):
     """-> dict(cfg, items=[(lit, outs, digest, raw)], returns=[...], prov)"""
     cfg = gen_recv_config(rng)
-    if edge:
+    join = edge['join'] if isinstance(edge, dict) else 0
+    if join:
+        cfg = dict(balance=False, low_latency=rng.random() < 0.3, srcs=[dict(eph=0, mode=None) for _ in range(join)])
+    elif edge:
         cfg = dict(balance=False, low_latency=rng.random() < 0.3,
                    srcs=[dict(eph=0, mode=None if edge is True else [('*', '*')] if edge == '*' else [tuple(x) for x in edge])])
     groups = None
@@ -335,7 +373,9 @@ def run_receiver_case(rng, budget=60, adversarial=False, edge=False):
         r = ZMQReceiver(addrs, 'C7', oob, cfg['balance'], cfg['low_latency'])
         # unique ids are random strings; nothing to canonicalise beyond the source index
         w.recv = r
-        if edge:
+        if join:
+            groups = gen_streams_join(rng, w, join)
+        elif edge:
             groups = gen_streams_edge(rng, w, None if edge is True or edge == '*' else [a for a, _ in edge])
         else:
             gen_streams(rng, w, cfg, adversarial)
@@ -1138,6 +1178,41 @@ def edgeS_cases(run, n):
         lit = pairl(pairl(gl, booll(c['cfg']['low_latency'])), listl(it[0] for it in c['items']))
         cases.append((lit, [True, got, pub], summary))
     run.model_disagree('edgeS', EDGEX_IMPORTS, 'run_edgeS', EDGE_TYPE, cases, shard=60)
+
+
+JOIN_TYPE = '(list (list ((Z * Z) * list (str * Z))) * bool) * list ritem'
+
+def join_cases(run, n):
+    """the lossless synchronized join (C01_join_lossless): the REAL ZMQReceiver on 2-3 subscribe-all sources that publish in
+    lock step, every schedule checked inside Coq against the theorem's hypotheses (joinA_hyps); what it hands out must be
+    row after row of the published matrix - every source's visible parts of ONE id, in source order - and equal the model's"""
+    rng = run.rng
+    cases = []
+    for k in range(n):
+        nsrc = rng.choice([2, 2, 3])
+        c = run_receiver_case(rng, budget=rng.choice([60, 120, 200]), edge={'join': nsrc})
+        rows = c['groups']
+        pub = [[row[0][0][0], [[t, p] for (_ids, parts) in row for t, p in parts if not t.startswith('_')]] for row in rows]
+        got = [[x['ret']['id'], [[t, p] for t, p in x['ret']['data'].items()]] for x in c['calls'] if x.get('ret')]
+        summary = dict(cfg=c['cfg'], rows=pub, script=[it[3] for it in c['items']])
+        if got != pub[:len(got)]:
+            j = next((i for i in range(len(got)) if i >= len(pub) or got[i] != pub[i]), len(pub))
+            run.violation('join:%s at=%d sources=%d' % ('lost-first' if j == 0 else 'not-a-prefix', j, nsrc),
+                          'the consumer was handed %s, row %d of what the %d sources published is %s' % (got[j:j + 1], j, nsrc, pub[j:j + 1]), summary)
+        elif c['drained'] and len(got) != len(pub):
+            run.violation('join:dropped %d of %d sources=%d' % (len(pub) - len(got), len(pub), nsrc),
+                          'everything was delivered and read but only %d of %d rows were handed to the application' % (len(got), len(pub)), summary)
+        run.count('join:cases')
+        run.count('join:sources=%d' % nsrc)
+        run.count('join:rows-returned', len(got))
+        run.count('join:timeouts', sum(1 for x in c['calls'] if 'ret' in x and x['ret'] is None))
+        run.seen(('j', recv_case_lit(c)), nontrivial=bool(got))
+        rl = listl(listl(pairl(pairl(zl(mid), zl(sid)), listl(pairl(strl(t), zl(p)) for t, p in parts)) for (mid, sid), parts in row) for row in rows)
+        lit = pairl(pairl(rl, booll(c['cfg']['low_latency'])), listl(it[0] for it in c['items']))
+        cases.append((lit, [True, got, pub], summary))
+    run.model_disagree('join', EDGEX_IMPORTS, 'run_joinA', JOIN_TYPE, cases, shard=60)
+    if cases:
+        run.samples.append(dict(family='join', rows=cases[0][2]['rows'], first_items=cases[0][2]['script'][:8]))
 
 
 EDGEX_IMPORTS = 'From OF Require Import Proto.Wire Proto.Receiver Proto.Edge Proto.EdgeG Proto.Edge_Inst.'
